@@ -351,3 +351,21 @@ def calls_to(p, f, pred):
             if pred(r, n):
                 out.append(n)
     return out
+
+
+def thorough_paths(rep, label, cfg, frm, to, via, dominator_verdict=None):
+    """Thorough tier: enumerate all acyclic paths frm -> to (loops unrolled once) and count those that avoid every
+    `via` node.  Cross-validates the dominator-based verdict; a disagreement is an engine error (no verdict)."""
+    if rep.tier != "thorough" or frm is None or to is None:
+        return None
+    via_ids = {v.id for v in via if v is not None}
+    paths = cfg.paths(frm, {to.id}, limit=200000)
+    skipping = [pth for pth in paths if not (set(pth) & via_ids)]
+    info = rep.info.setdefault("paths_enumerated", {})
+    ex = None
+    if skipping:
+        ex = [getattr(cfg.nodes[i].ast, "lineno", None) for i in skipping[0] if cfg.nodes[i].kind in ("stmt", "test", "loop")]
+    info[label] = {"paths": len(paths), "avoiding_checkpoint": len(skipping), "example_lines": ex}
+    if dominator_verdict is not None and bool(skipping) == bool(dominator_verdict) and paths:
+        raise AnalysisError(f"engine self-check failed ({label}): dominator verdict {dominator_verdict} but {len(skipping)} of {len(paths)} enumerated paths avoid the checkpoint")
+    return len(skipping)
